@@ -230,8 +230,19 @@ def r09_c(prog: Program, chk: Check) -> None:
         fn = ci.methods.get(mname)
         if fn is None:
             raise AnchorError(f"NameCheckVisitor.{mname} not found")
-        sets = [c for c in calls_in(fn, "_set_name_in_scope") if c.args and norm(c.args[0]) == marker]
-        uncond = [c for c in sets if not guards_of(c, fn)]
+        def uncond_sets(f: ast.AST, depth: int = 2) -> bool:
+            if any(c.args and norm(c.args[0]) == marker and not guards_of(c, f) for c in calls_in(f, "_set_name_in_scope")):
+                return True
+            if depth == 0:
+                return False
+            # ... or a private helper of the visitor that the method calls unconditionally does
+            for c in walk_no_nested(f):
+                if isinstance(c, ast.Call) and isinstance(c.func, ast.Attribute) and norm(c.func.value) == "self" and c.func.attr in ci.methods and c.func.attr != "_set_name_in_scope":
+                    if not guards_of(c, f) and uncond_sets(ci.methods[c.func.attr], depth - 1):
+                        return True
+            return False
+
+        uncond = uncond_sets(fn)
         chk.ob(
             "R09.c",
             f"name_check_visitor::NameCheckVisitor.{mname}::sets-{marker}",
@@ -372,7 +383,7 @@ def r09_f(prog: Program, chk: Check) -> None:
         "R09.f",
         "reaching definitions as a finite model: visit_If / visit_While / visit_For / _handle_loop_else / visit_Try / visit_try_except / visit_Break / visit_Continue and the scope "
         "machinery (FunctionScope.set / get_local / subscope / loop_scope / suppressing_subscope / get_combined_scope / combine_subscopes, Scope.get, StackedScopes) are interpreted "
-        "from their AST in the collecting phase on generated function bodies (assignments of distinct literals, uses, if / while / while True / for with else, break, continue, return, "
+        "from their AST in the collecting phase on generated function bodies (assignments of distinct literals, uses, if / while / while True / for with else, break, continue, return, with blocks, "
         "try / except / else / finally, nested one level); for every reachable use of a local the recorded definitions lie between the strict and the liberal reaching-definitions "
         "sets of an independent analysis, as the property defines them",
         floor=4,
